@@ -76,6 +76,9 @@ def seeded_variants(prop):
             meta = json.load(fh)
         if meta.get('property') != prop or not meta.get('confirmed'):
             continue
+        if meta.get('harmless_since_fix'):
+            continue        # the tree was repaired so that this change no
+                            # longer breaks the property (see meta.json)
         out.append(dict(id='seed:' + sid, prop=prop, rule=None, kind='break',
                         edits=[], patch=patch_p, function=None))
     return out
